@@ -28,6 +28,7 @@ struct Report {
 	std::string digest; // outcome digest (chunking invariance / dirty-pattern determinism)
 	std::string sent_hex; // all bytes handed to the transport, per connection
 	std::string trace;
+	std::string first_foreign; // first failure charged to a property other than Options.focus (not reported by this run)
 	long allocs = 0;      // number of allocations made through the counting allocator
 	long leaked = 0;      // blocks still in the ledger after everything was freed
 	long foreign_free = 0; // frees of blocks the ledger does not know (would be a bad free with a custom allocator)
